@@ -4,6 +4,7 @@
 //!   mc replay <replay.json>          (prints "REPLAY violated=<bool> :: <key> :: <detail>")
 
 mod explore;
+mod geom;
 mod img;
 mod props;
 mod refmodel;
@@ -27,6 +28,7 @@ fn run_prop(id: &str, tier: Tier) -> Option<Report> {
         "C16" => props::c16::run(tier),
         "C14" => props::c14::run(tier),
         "C15" => props::c15::run(tier),
+        "C12" => props::c12::run(tier),
         _ => return None,
     })
 }
@@ -47,6 +49,7 @@ fn replay_case(case: &Value) -> Option<(bool, String)> {
         "c16yuv" | "c16curve" | "c16prim" | "c16xyb" | "c16hsl" => props::c16::replay(case),
         "c14" | "c14labels" => props::c14::replay(case),
         "c15res" | "c15rgb" | "c15content" | "c15contentrgb" => props::c15::replay(case),
+        "c12" | "c12float" => props::c12::replay(case),
         _ => return None,
     })
 }
